@@ -140,6 +140,8 @@ static void pred_cpca(const Case &c) {
   CPCAMODEL *m; NewCPCAModel(&m);
   CPCA(t, scaling, (size_t)npc, m);
   for (size_t k = 0; k < m->total_expvar->size; k++) VF_CHECK(!std::isnan(m->total_expvar->data[k]), "CPCA total explained variance of component %zu is NaN", k);
+  for (size_t k = 0; k < m->block_expvar->size; k++) for (size_t b = 0; b < m->block_expvar->d[k]->size; b++)
+    VF_CHECK(!std::isnan(m->block_expvar->d[k]->data[b]), "CPCA explained variance of block %zu at component %zu is NaN", b, k);
   if (total > 0) for (size_t i = 0; i < m->super_scores->row; i++) VF_CHECK(std::isfinite(m->super_scores->data[i][0]), "first super score (%zu) is not finite although the data are not null", i);
   DelCPCAModel(&m); DelTensor(&t);
 }
